@@ -302,6 +302,10 @@ pub struct PtSpec {
     /// Every frame of a handshake (registration, identity) is this many milliseconds late.
     #[serde(default)]
     pub handshake_pace_ms: u32,
+    /// Status informations of transactions carry an additional text (BMP 3C) of this many characters
+    /// (up to 999): packets beyond 254 bytes take the extended APDU header.
+    #[serde(default)]
+    pub long_status_text: u16,
 }
 
 // ---------------------------------------------------------------- state
@@ -498,6 +502,10 @@ impl PtShared {
             s.zvt_card_type = Some(6);
             s.zvt_card_type_id = Some(1);
             s.text = Some(b"AS-Proc-Code= 00 076 06".to_vec());
+        }
+        if self.spec.long_status_text > 0 {
+            let n = self.spec.long_status_text.min(999) as usize;
+            s.text = Some((0..n).map(|i| b'A' + (i % 26) as u8).collect());
         }
         s
     }
